@@ -52,6 +52,10 @@ TRUSTED_EXTRA = (
     "(exactly whenever every intermediate is representable); an integer component may differ by one only when the "
     "exact value before rounding is within 2^-40 of a half-integer",
     "C14: DesignSpace is the C02 model (its own correspondence is checked by ./check C02)",
+    "C14: process histories are run in children of a fork server (harness/c14_fresh.py) that has imported GEMSEO and the DOE "
+    "library modules and sampled nothing; 'a new process' means such a child (state created at import time is common to a "
+    "history and to its references); the rows of the ThirdParty tables of the `proc` driver line are the unit samples of "
+    "these reference processes (for the OpenTURNS sequences: of openturns' own sequence objects)",
 )
 
 # --------------------------------------------------------------------------- algorithm table
@@ -1121,12 +1125,25 @@ _POOL = None
 POOL_SIZE = 4
 
 
+def import_everything() -> None:
+    """Import GEMSEO's DOE machinery and the third-party modules it loads lazily (imports only)."""
+    import gemseo  # noqa: F401
+    import pandas  # noqa: F401
+    import scipy.stats.qmc  # noqa: F401
+    from gemseo.algos.database import Database  # noqa: F401
+    from gemseo.algos.optimization_problem import OptimizationProblem  # noqa: F401
+    from gemseo.core.mdo_functions.mdo_function import MDOFunction  # noqa: F401
+
+    factory().algorithms  # imports the module of every DOE library
+
+
 def start_pool() -> None:
     global _POOL
     if _POOL is None and os.environ.get("C14_NO_POOL") != "1":
         import multiprocessing as mp
 
         tmp_dir()  # one scratch directory, created (and removed at exit) by the main process
+        import_everything()  # the workers share the imported modules (no library object, no sample yet)
         _POOL = mp.get_context("fork").Pool(POOL_SIZE)
 
 
@@ -1800,9 +1817,8 @@ def run(ctx) -> Result:
         elif "session" in c:
             c14_session.check_sessions(res, [c["session"]])
             res.count("corpus")
-        elif "process_history" in c:
-            c14_proc.check_histories(res, [c["process_history"]])
-            res.count("corpus")
+        # corpus entries with a "process_history" are run first by c14_proc.prochist_stream (the fork server is
+        # still importing GEMSEO at this point)
     for stream in (view_stream, seeder_stream, count_stream, own_designs_stream, library_seed_stream, probe_stream,
                    custom_stream, c14_proc.prochist_stream, c14_session.session_stream, product_stream):
         t0 = time.time()
